@@ -958,7 +958,11 @@ def r2_9(ctx: Ctx) -> RuleResult:
         fn = ctx.repo.find_method(cls, "__call__")
         if fn is None:
             raise AnalysisError(f"R2.9: {cname}.__call__ not found")
-        got = norm(model.call(MObj(model, cname, {}), "__call__", list(args)))
+        # node lists are model NodeList objects (their own methods, `empty()` and the like, run abstractly)
+        from .model import NodeListModel
+
+        call_args = [NodeListModel(model, list(a)) if cname in ("Count", "Value") and isinstance(a, tuple) else a for a in args]
+        got = norm(model.call(MObj(model, cname, {}), "__call__", call_args))
         shown = tuple("<1 node>" if isinstance(a, tuple) and a and isinstance(a[0], MObj) and len(a) == 1 else
                       ("<2 nodes>" if isinstance(a, tuple) and a and isinstance(a[0], MObj) else a) for a in args)
         if got is UNKNOWN:
